@@ -22,7 +22,7 @@ CFG = dict(
           "then all orders of the internal rules of the component concerned, the wires in between) and every step's events must be predicted "
           "by some model outcome (reason 1).",
     props="Props/C01.v",
-    theorems=["C01_projection_client", "C01_projection_server", "C01_wire_c2s", "C01_wire_s2c", "C01_request_exact", "C01_server_reply_origin", "C01_pairing", "C01_exactly_once", "C01_no_fabrication", "C01_never_two", "C01_complete", "C01_complete_ok", "Sys_measure", "Sys_closed_terminates", "Sys_closed_reaches_final", "Sys_final_iff_quiescent", "C01_complete_closed"],
+    theorems=["C01_projection_client", "C01_projection_server", "C01_wire_c2s", "C01_wire_s2c", "C01_request_exact", "C01_server_reply_origin", "C01_pairing", "C01_exactly_once", "C01_no_fabrication", "C01_never_two", "C01_complete", "C01_complete_ok", "Sys_measure", "Sys_closed_terminates", "Sys_closed_reaches_final", "Sys_final_iff_quiescent", "C01_complete_closed", "C01_complete_closed_from"],
     imports=["Check.SysC", "Check.C01c", "Check.C01a"],
     case_type="c01case",
     find_bad_from="find_bad_from_a",
